@@ -16,6 +16,18 @@ claimed = {
          "none beyond the common base for the scMinimal obligation"),
  "C05": ("same encoding as C01 with the ZIP-215 flag symbolic: verdict equals the predicate selected by the flag; default acceptance implies ZIP-215 acceptance",
          "as C01"),
+ "C06": ("VerifyBatch inlined with all its closures, chunk loop, early exits and the per-signature fallback; per-entry results equal the documented single-verification predicate of each entry, summary = conjunction, one result per entry, no panic, error only for entropy failure; entries fully symbolic, one malformed entry (6 kinds) at first/middle/last position; batch lengths quick {0..6,8,9}, thorough up to 131 (0, 1 and 2 full chunks +/- remainders)",
+         "assumption A1 (batch equation over the documented points/scalars holds iff every entry's own cofactored equation holds: layer-2 algebra, exact multi-scalar multiplication C17, and the 2^-120 probabilistic soundness of random linear combination, which is not a property of the code); A2: decodability is independent of the sign bit (C10); cut callees as in C01"),
+ "C07": ("writeDom2 executed against a recording hash stub: emitted bytes = prefix||flag||len||ctx for all contexts (opaque content, every length) ; injectivity / prefix-freeness of (flag, ctx) -> hash input decided in the sequence theory; the dom2 prefix string run through the real decoder concretely (not a point); context / digest-length / hash-selector refusal contract of Sign, VerifyWithOptions and VerifyBatch for symbolic lengths and selectors",
+         "hash-input separation is the code's share of the statement; 'never accepted under a different pair' additionally needs SHA-512 to behave as a random oracle and excludes ZIP-215 with a small-order key"),
+ "C13": ("every exported entry point (Verify, VerifyWithOptions, Sign, PrivateKey.Sign, NewKeyFromSeed, VerifyBatch, X25519) executed with argument lengths case-split over {0,31,32,33,63,64,65,80,...}, nil slices, spare capacity, symbolic contents, hash selector and context length symbolic; panic condition == documented condition; the store log contains no caller-supplied object",
+         "heavy callees cut as in C01/C02 with their own length preconditions asserted at the call site; the generic X25519 ladder is external code (uninterpreted)"),
+ "C14": ("GenerateKey/Public/Seed/Equal executed symbolically: exactly one 32-byte ReadFull, error => no key, result = NewKeyFromSeed(bytes read), accessors return fresh objects (object identity in the memory model), Equal <=> same type, same length, all bytes equal, for all 64-byte contents and several lengths",
+         "NewKeyFromSeed's own correctness is C02; reader modelled by the io.ReadFull contract"),
+ "C18": ("every field function of both limb layouts (Add, AddAfterBasic, AddReduce, Sub, SubAfterBasic, SubReduce, Neg, Mul, Square, SquareTimes step, Expand, Contract, SwapConditional, Copy) executed symbolically for all limbs inside the stated input class; the bit-vector terms are lifted to integer arithmetic in a linear normal form (every no-wrap decision is a solver-discharged side condition) and the exact residue and the output limb bounds are proved",
+         "input classes: limbs below 2^(bits+3) (64-bit Mul/Square: 2^54) resp. 2^(bits+1) for the 32-bit Mul/Square; Recip / PowTwo252m3 chains are covered through C10"),
+ "C19": ("reduce, Add, Expand (16 and 32 bytes), ExpandRaw/Contract round trip and the signed radix-16 recoding (per-digit relation on the real output for all scalars below 2^255 + telescoping induction) on both limb layouts",
+         "Expand(64 bytes), Mul and barrettReduce: monolithic obligations run in the thorough tier only and are reported undischarged if the solvers do not finish; sliding-window recodings: see C16"),
  "C20": ("key generation, signing (3 variants), X25519 base-point path, private-key conversion and comparison executed symbolically down to the limb code and the translated assembly selector with secret inputs tainted; every branch condition, memory index, shift amount, division operand and variable-time primitive operand is checked for dependence on a secret symbol",
          "instruction-level timing and the stdlib (SHA-512, subtle) are assumed constant-time; taint is syntactic over simplified terms (a semantically public term that mentions a secret would be flagged, never the converse)"),
 }
